@@ -247,3 +247,8 @@ for _inc in (True, False):
                           stubs=["equilibrium functions -> symbolic arrays"], bounds="nx=1, ny=3"))
 OBLIGATIONS.append(Ob("interpolant_closures", c18.ob_closures, tier="quick", family="closures", encodes=["hypnotoad.core.equilibrium:Equilibrium.magneticFunctionsFromGrid"],
                       desc="Bp_R = psi_Z/R, Bp_Z = -psi_R/R, f_R, f_Z, second derivatives", stubs=["RectBivariateSpline -> table"], bounds="point inside the box"))
+
+import harness.c11 as _c11  # noqa: E402
+OBLIGATIONS.append(Ob("file_header_scalars", _c11.ob_wall_output, tier="quick", family="scalars", encodes=["hypnotoad.core.mesh:BoutMesh.writeGridfile"],
+                      desc="Bt_axis, psi_axis, psi_bdry (and the gfile values) written to the file are the equilibrium's attributes", stubs=["DataFile.write -> recorder"],
+                      bounds="all values symbolic"))
